@@ -715,6 +715,8 @@ type checkOutcome struct {
 	unknown bool
 }
 
+func newEngine(deps check.EngineDependencies) *check.Engine { return check.NewEngine(deps) }
+
 func runCheck(ctx context.Context, deps check.EngineDependencies, t *relationtuple.RelationTuple, depth int) checkgroup.Result {
 	e := check.NewEngine(deps)
 	return e.CheckRelationTuple(ctx, t, depth)
